@@ -1,8 +1,9 @@
 import Infretis.Lemmas.RepexC04C05
+import Infretis.Lemmas.RepexC04Crash
 /-!
 # C04 — fractional weights are conserved and accounted for exactly once
 
-Property theorems only (helper lemmas: `Infretis/Lemmas/RepexC04{Rec,Rows,Treat,Check,Frame,Hist,Once,Restart,C05}.lean`;
+Property theorems only (helper lemmas: `Infretis/Lemmas/RepexC04{Rec,Rows,Treat,Check,Frame,Hist,Once,Restart,C05,Crash}.lean`;
 the history theorems use C03's scheduler invariant `Inv` from `RepexC03{Core,Treat,Sys,Init,Load}.lean`).
 Model: `Infretis/Model/Repex.lean` (`recordFrac` = the "record weights" loop of `treat_output`,
 `writeRows` = `write_to_pathens`, `treatOutput`, the scheduler events `sysStep`/`run`, the restart
@@ -599,5 +600,91 @@ example : FracInit exSys ∧ Init5 exSys ∧ HistOk exSys (exEvs.take 3) ∧
   ⟨ex_fracInit, ex_init5, histOk_of_B _ _ (by decide +kernel), by decide +kernel,
    evOk_of_B (by decide +kernel), by decide +kernel, by decide +kernel, by decide +kernel,
    by decide +kernel⟩
+
+/-! ## 8. A stop inside `treat_output`, then a restart
+
+Weight-relevant disk effects of one `treat_output`, in the code's order: (1) `write_to_pathens`
+appends the rows of the replaced paths, (2) `write_toml` replaces `restart.toml` atomically by the
+image of the new state.  `crashDisk s0 s' j renamed` is what a stop leaves: before the replace the old
+image with any number `j` of whole new rows already in the data file (a torn row is dropped at the
+restart), after it the new image with all rows.  `cleanRows` is `clean_data_file` (rows of paths
+active in the restart file are dropped), `restore` is `load_paths` on the image.
+
+`_partial`: what the theorem covers is the law on (data file + restart file) right after the
+restart's clean-up, for every stop of every completed step of every history.  Not covered, and why:
+* the restart file present before the step is taken to be the image of the state the step starts
+  from (`persist y.s`); the real file was written at the end of the previous `treat_output`, before
+  the next `prep_md_items`, and differs from it in `locked`, slot order and stream position — fields
+  the restore of the weights does not read, but a separate disk object is not modelled;
+* the continuation after a restart with a job in flight (`locked0 ≠ []`, the re-issue branch of
+  `pick_lock`) is outside C03's invariants (they assume `locked0 = []`), so "…and stays conserved to
+  step N" follows only for quiescent images (`restart_is_start_state`, `restart_conservation`);
+* the table is assumed to hold exactly the live paths before and after the step (hypotheses
+  `htab`, `htab'`; `live ⊆ table` is proved, the converse needs "the ghost slot holds no path");
+* path-store / deletion effects carry no weights and are C08's `Fs` model.
+The tie evaluates the full statement (continued to N) on the real files for every stop. -/
+
+theorem crash_restart_conservation_partial (y0 y y' : Sys) (evs : List Ev) (h0 : RowInit y0)
+    (hr : run y0 evs = .ok y) (hm : MatchableAlong y0 evs)
+    (k : Nat) (status : Status) (newW : List (List Rat)) (o : PickOutcome)
+    (hs : sysStep y (.step k status newW o) = .ok y') (hmm : matchableAt y (.step k status newW o)) :
+    ∃ job s' pns it, y.jobs[k]? = some job ∧
+      treatOutput (loop y.s).1 job status newW (sortFuel (loop y.s).1) = .ok (s', pns, it) ∧
+      ((y.s.frac.map Prod.fst).Perm ((livePaths y.s).filterMap id) →
+       (s'.frac.map Prod.fst).Perm ((livePaths s').filterMap id) →
+       ∀ (j : Nat) (renamed : Bool) (n workers tsteps : Nat) (occ : List (List Int))
+         (ensEng : List (List Nat)) (weightOf : Nat → List Rat) (sR : St),
+         restore (crashDisk y.s s' j renamed).img n workers tsteps occ ensEng weightOf = .ok sR →
+         (crashDisk y.s s' j renamed).img.cstep = (if renamed then y.s.cstep + 1 else y.s.cstep) ∧
+         ∀ c, rowsTotal (cleanRows (crashDisk y.s s' j renamed).rows
+                (crashDisk y.s s' j renamed).img.active) c + colTotal sR.frac c
+              = (idleSteps y0 evs c : Rat)
+                + (if renamed then (idleAt y (.step k status newW o) c : Rat) else 0)) := by
+  obtain ⟨hi, r, _⟩ := run_rinv evs h0.fi.hinv h0.rinv hr
+  have hc := conservation y0 y evs h0.fi hr hm
+  obtain ⟨job, s', pns, it, hjob, htreat, hmain⟩ := crash_step_total hi r hs hmm
+  refine ⟨job, s', pns, it, hjob, htreat, ?_⟩
+  intro htab htab' j renamed n workers tsteps occ ensEng weightOf sR hres
+  obtain ⟨h1, h2⟩ := hmain htab htab' j renamed n workers tsteps occ ensEng weightOf sR hres
+  refine ⟨h1, fun c => ?_⟩
+  rw [h2 c]
+  unfold total
+  rw [hc c]
+
+/-- the state after the `treat_output` of the zero-swap completion in `exMid` -/
+def exMidTreated : St :=
+  match exMid.jobs[0]? with
+  | some job =>
+    (match treatOutput (loop exMid.s).1 job .acc [[1], [1, 1, 0]] (sortFuel (loop exMid.s).1) with
+     | .ok (s, _, _) => s
+     | .error _ => exMid.s)
+  | none => exMid.s
+
+def exMidW (pn : Nat) : List Rat := ((exMid.s.wts ++ exMidTreated.wts).lookup pn).getD []
+
+def exCrashRestored (j : Nat) (renamed : Bool) : St :=
+  match restore (crashDisk exMid.s exMidTreated j renamed).img 4 2 10 [[-1, -1]] [[0], [0], [0]] exMidW with
+  | .ok s => s
+  | .error _ => exMid.s
+
+/-- zero swap accepted (two rows, first completed step): a stop after the first row was appended
+    (old restart file, step counter 0: the row is dropped at the restart, totals `[0,0,0]`) and a stop
+    after the replace of the restart file (step counter 1, both rows kept, totals `[1,1,0]` — `[1+]`
+    was busy at the recording) -/
+example : exMidTreated.rows.map (·.1) = [0, 1] ∧
+    (crashDisk exMid.s exMidTreated 1 false).rows.map (·.1) = [0] ∧
+    cleanRows (crashDisk exMid.s exMidTreated 1 false).rows
+      (crashDisk exMid.s exMidTreated 1 false).img.active = [] ∧
+    restore (crashDisk exMid.s exMidTreated 1 false).img 4 2 10 [[-1, -1]] [[0], [0], [0]] exMidW
+      = .ok (exCrashRestored 1 false) ∧
+    (List.range 3).map (fun c => colTotal (exCrashRestored 1 false).frac c) = [0, 0, 0] ∧
+    (crashDisk exMid.s exMidTreated 1 false).img.cstep = 0 ∧
+    restore (crashDisk exMid.s exMidTreated 2 true).img 4 2 10 [[-1, -1]] [[0], [0], [0]] exMidW
+      = .ok (exCrashRestored 2 true) ∧
+    (List.range 3).map (fun c => rowsTotal (cleanRows (crashDisk exMid.s exMidTreated 2 true).rows
+        (crashDisk exMid.s exMidTreated 2 true).img.active) c + colTotal (exCrashRestored 2 true).frac c)
+      = [1, 1, 0] ∧
+    (crashDisk exMid.s exMidTreated 2 true).img.cstep = 1 := by
+  decide +kernel
 
 end Infretis.C04
